@@ -147,8 +147,8 @@ def _check_nodes(nodes, datas) -> list:
     if s2 != s1:
         fails.append(("not-idempotent", f"src={src!r:.160} str1={s1!r:.200} str2={s2!r:.200}"))
     for d in datas:
-        a = oc.short(oc.outcome_of(lambda: t.render(**d)))
-        b = oc.short(oc.outcome_of(lambda: t2.render(**d)))
+        a = oc.short(oc.render(src, lambda: t, **d))
+        b = oc.short(oc.render(src, lambda: t2, **d))
         if a != b:
             fails.append(("render-differs", f"src={src!r:.160} str={s1!r:.200} orig={a!r:.120} reparsed={b!r:.120}"))
             break
